@@ -38,6 +38,7 @@ Lemma server_receives s ser m ts sid f d b ser' clock :
     of_payload (m_tid p) (m_data p) = Ok m /\ m_sid p = sid /\ m_ts p = ts /\
     same_core s s0 /\ sv_de s0 = sv_de s /\ ser_ok (sv_ser s0) /\ events pre = [] /\
     (quiet (sv_ack s) b -> pre = [] /\ sv_ser s0 = sv_ser s) /\
+    sv_ack s0 = fst (ack_step (sv_ack s) (lenN b)) /\
     Link ser' de3 /\
     server_handle_input s b clock =
       (let '(s1, r) := h_message (upd_de s0 de1) p clock in
@@ -63,8 +64,8 @@ Proof.
     - apply h_media_de.
     - destruct ev; try reflexivity. apply one_packet_de.
     - apply h_media_de. }
-  destruct (server_handle_packet s b clock p de1 de3 Hser G1 G2 Hframe) as [s0 [pre [Hc0 [Hd0 [Hs0 [Hpre [Hq Hin]]]]]]].
-  exists p, de1, de3, s0, pre. repeat (split; [first [exact Hof|reflexivity|exact Hc0|exact Hd0|exact Hs0|exact Hpre|exact Hq|exact HL2]|]).
+  destruct (server_handle_packet s b clock p de1 de3 Hser G1 G2 Hframe) as [s0 [pre [Hc0 [Hd0 [Hs0 [Hpre [Hq [Hack Hin]]]]]]]].
+  exists p, de1, de3, s0, pre. repeat (split; [first [exact Hof|reflexivity|exact Hc0|exact Hd0|exact Hs0|exact Hpre|exact Hq|exact Hack|exact HL2]|]).
   exact Hin.
 Qed.
 
@@ -76,6 +77,7 @@ Lemma client_receives c ser m ts sid f d b ser' clock :
     (cl_cfg c0 = cl_cfg c /\ cl_next_tr c0 = cl_next_tr c /\ cl_trs c0 = cl_trs c /\ cl_state c0 = cl_state c /\
      cl_app c0 = cl_app c /\ cl_stream c0 = cl_stream c) /\ cl_de c0 = cl_de c /\ ser_ok (cl_ser c0) /\ cevents pre = [] /\
     (quiet (cl_ack c) b -> pre = [] /\ cl_ser c0 = cl_ser c) /\
+    cl_ack c0 = fst (ack_step (cl_ack c) (lenN b)) /\
     Link ser' de3 /\
     client_handle_input c b clock =
       (let '(c1, r) := ch_message (cupd_de c0 de1) p clock in
@@ -101,9 +103,9 @@ Proof.
     - apply ch_media_de.
     - destruct ev; try reflexivity. apply cone_packet_de.
     - apply ch_media_de. }
-  destruct (client_handle_packet c b clock p de1 de3 Hser G1 G2 Hframe) as [c0 [pre [E1 [E2 [E3 [E4 [E5 [E6 [E7 [Hs0 [Hpre [Hq Hin]]]]]]]]]]]].
+  destruct (client_handle_packet c b clock p de1 de3 Hser G1 G2 Hframe) as [c0 [pre [E1 [E2 [E3 [E4 [E5 [E6 [E7 [Hs0 [Hpre [Hq [Hack Hin]]]]]]]]]]]]].
   exists p, de1, de3, c0, pre. split; [exact Hof|]. split; [reflexivity|]. split; [reflexivity|].
-  split; [repeat split; assumption|]. split; [exact E7|]. split; [exact Hs0|]. split; [exact Hpre|]. split; [exact Hq|]. split; [exact HL2|exact Hin].
+  split; [repeat split; assumption|]. split; [exact E7|]. split; [exact Hs0|]. split; [exact Hpre|]. split; [exact Hq|]. split; [exact Hack|]. split; [exact HL2|exact Hin].
 Qed.
 
 Ltac eqb_strs :=
@@ -293,11 +295,12 @@ Theorem create_stream_delivered c s p clock sclock :
     create_stream_request c p clock = (c1, COk [CPacket b1 false]) /\
     cl_state c1 = Connected /\ lookup (cl_next_tr c) (cl_trs c1) = Some (TCreateStream p) /\
     cl_de c1 = cl_de c /\ cl_cfg c1 = cl_cfg c /\ cl_app c1 = cl_app c /\ cl_stream c1 = cl_stream c /\ cl_ack c1 = cl_ack c /\ ser_ok (cl_ser c1) /\
+    send_message (cl_ser c) (MAmf0Command (str "createStream") (u32_to_f64 (cl_next_tr c)) VNull []) clock 0 false false = Ok (b1, cl_ser c1) /\
     server_handle_input s b1 sclock = (s1, ROk r2) /\
     events r2 = [] /\
     sv_app s1 = sv_app s /\ sv_reqs s1 = sv_reqs s /\ sv_next_req s1 = sv_next_req s /\ sv_connected s1 = sv_connected s /\
     sv_streams s1 = insert (sv_next_stream s) StCreated (sv_streams s) /\ sv_next_stream s1 = sv_next_stream s + 1 /\
-    Link (cl_ser c1) (sv_de s1) /\ ser_ok (sv_ser s1) /\
+    Link (cl_ser c1) (sv_de s1) /\ ser_ok (sv_ser s1) /\ sv_ack s1 = fst (ack_step (sv_ack s) (lenN b1)) /\
     (quiet (sv_ack s) b1 -> exists b2, r2 = [SPacket b2 false] /\
        send_message (sv_ser s) (create_reply (u32_to_f64 (cl_next_tr c)) (sv_next_stream s)) sclock 0 false false = Ok (b2, sv_ser s1)).
 Proof.
@@ -310,7 +313,7 @@ Proof.
   assert (Hok : msg_ok M).
   { cbn [msg_ok M wf_values wf_value]. repeat split; try reflexivity. apply u32_to_f64_bound; exact Htr. }
   destruct (server_receives s (cl_ser c) M clock 0 false false b1 ser' sclock HL Hss Hok I Hclk ltac:(lia) Esend)
-    as [pk [de1 [de3 [s0 [pre [Hof [Hsid [Hts [Hc0 [Hd0 [Hs0 [Hpre [Hq [HL2 Hrun]]]]]]]]]]]]]].
+    as [pk [de1 [de3 [s0 [pre [Hof [Hsid [Hts [Hc0 [Hd0 [Hs0 [Hpre [Hq [Hack [HL2 Hrun]]]]]]]]]]]]]]].
   destruct Hc0 as [A1 [A2 [A3 [A4 [A5 [A6 [A7 A8]]]]]]].
   destruct (send_fits (sv_ser s0) (create_reply (u32_to_f64 (cl_next_tr c)) (sv_next_stream s0)) sclock 0 false false Hs0 (create_reply_fits _ _))
     as [b2 [ser2 [Es2 Hser2]]].
@@ -323,11 +326,11 @@ Proof.
   rewrite Hm in Hrun. cbv iota beta in Hrun.
   eexists. exists b1. eexists. eexists. split; [reflexivity|].
   split; [exact Hst|]. split; [cbn [cl_trs cupd_ser c0 cupd_trs]; apply ChunkSpecProofs.lookup_insert_same|].
-  repeat (split; [reflexivity|]). split; [exact Hser'|]. split; [exact Hrun|].
+  repeat (split; [reflexivity|]). split; [exact Hser'|]. split; [reflexivity|]. split; [exact Hrun|].
   split; [rewrite events_pre by exact Hpre; reflexivity|].
   cbn [sv_app sv_reqs sv_next_req sv_connected sv_streams sv_next_stream sv_de sv_ser upd_de upd_ser upd_streams cl_ser cupd_ser].
   split; [exact A1|]. split; [exact A2|]. split; [exact A3|]. split; [exact A4|]. split; [rewrite A5, A6; reflexivity|]. split; [rewrite A6; reflexivity|].
-  split; [exact HL2|]. split; [exact Hser2|].
+  split; [exact HL2|]. split; [exact Hser2|]. split; [exact Hack|].
   intros Hquiet. destruct (Hq Hquiet) as [-> Hser0]. exists b2. split; [reflexivity|]. rewrite <- Hser0, <- A6. exact Es2.
 Qed.
 
@@ -338,7 +341,7 @@ Theorem create_result_publish ser ser' b2 c trn id key t sclock cclock :
   lookup trn (cl_trs c) = Some (TCreateStream (PurposePublish key t)) ->
   exists c2 r3, client_handle_input c b2 cclock = (c2, COk r3) /\
   cevents r3 = [] /\ cl_state c2 = PublishRequested /\ cl_stream c2 = Some id /\ lookup trn (cl_trs c2) = None /\
-  cl_app c2 = cl_app c /\ cl_cfg c2 = cl_cfg c /\ Link ser' (cl_de c2) /\ ser_ok (cl_ser c2) /\
+  cl_app c2 = cl_app c /\ cl_cfg c2 = cl_cfg c /\ Link ser' (cl_de c2) /\ ser_ok (cl_ser c2) /\ cl_ack c2 = fst (ack_step (cl_ack c) (lenN b2)) /\
   (quiet (cl_ack c) b2 -> exists b3, r3 = [CPacket b3 false] /\
      send_message (cl_ser c) (publish_cmd key t) cclock id false false = Ok (b3, cl_ser c2)).
 Proof.
@@ -346,7 +349,7 @@ Proof.
   assert (Hok : msg_ok (create_reply (u32_to_f64 trn) id)).
   { cbn [msg_ok create_reply wf_values wf_value]. repeat split; try reflexivity; apply u32_to_f64_bound; assumption. }
   destruct (client_receives c ser _ sclock 0 false false b2 ser' cclock HL Hcs Hok I Hsclk ltac:(lia) Hsend)
-    as [pk [de1 [de3 [c0 [pre [Hof [Hsid [Hts [[E1 [E2 [E3 [E4 [E5 E6]]]]] [Hd0 [Hs0 [Hpre [Hq [HL2 Hrun]]]]]]]]]]]]]].
+    as [pk [de1 [de3 [c0 [pre [Hof [Hsid [Hts [[E1 [E2 [E3 [E4 [E5 E6]]]]] [Hd0 [Hs0 [Hpre [Hq [Hack [HL2 Hrun]]]]]]]]]]]]]]].
   destruct (send_fits (cl_ser c0) (publish_cmd key t) cclock id false false Hs0 (publish_cmd_fits key t Hkl)) as [b3 [ser3 [Es3 Hser3]]].
   assert (Hm : ch_message (cupd_de c0 de1) pk cclock =
                (cupd_ser (cupd_state (cupd_stream (cupd_trs (cupd_de c0 de1) (remove trn (cl_trs c0)) (cl_next_tr c0)) (Some id)) PublishRequested) ser3,
@@ -361,7 +364,7 @@ Proof.
   split; [rewrite cevents_pre by exact Hpre; reflexivity|].
   cbn [cl_state cl_stream cl_trs cl_app cl_cfg cl_de cl_ser cupd_de cupd_ser cupd_state cupd_stream cupd_trs].
   split; [reflexivity|]. split; [reflexivity|]. split; [apply ChunkSpecProofs.lookup_remove_same|].
-  split; [exact E5|]. split; [exact E1|]. split; [exact HL2|]. split; [exact Hser3|].
+  split; [exact E5|]. split; [exact E1|]. split; [exact HL2|]. split; [exact Hser3|]. split; [exact Hack|].
   intros Hquiet. destruct (Hq Hquiet) as [-> Hser0]. exists b3. split; [reflexivity|]. rewrite <- Hser0. exact Es3.
 Qed.
 
@@ -374,14 +377,14 @@ Theorem publish_request_delivered ser ser' b3 s key t id app cclock sclock :
   events r4 = [EvPublishRequested (sv_next_req s) app key (mode_of_type t)] /\
   lookup (sv_next_req s) (sv_reqs s2) = Some (RPublish key (mode_of_type t) id) /\
   sv_streams s2 = sv_streams s /\ sv_app s2 = sv_app s /\ sv_connected s2 = true /\
-  Link ser' (sv_de s2) /\ ser_ok (sv_ser s2) /\
+  Link ser' (sv_de s2) /\ ser_ok (sv_ser s2) /\ sv_ack s2 = fst (ack_step (sv_ack s) (lenN b3)) /\
   (quiet (sv_ack s) b3 -> r4 = [SEvent (EvPublishRequested (sv_next_req s) app key (mode_of_type t))] /\ sv_ser s2 = sv_ser s).
 Proof.
   intros HL Hss Hkey Hid Hclk Hsend Hconn Happ.
   assert (Hok : msg_ok (publish_cmd key t)).
   { cbn [msg_ok publish_cmd wf_values wf_value]. repeat split; try reflexivity; try assumption. apply type_str_utf8. }
   destruct (server_receives s ser _ cclock id false false b3 ser' sclock HL Hss Hok I Hclk Hid Hsend)
-    as [pk [de1 [de3 [s0 [pre [Hof [Hsid [Hts [Hc0 [Hd0 [Hs0 [Hpre [Hq [HL2 Hrun]]]]]]]]]]]]]].
+    as [pk [de1 [de3 [s0 [pre [Hof [Hsid [Hts [Hc0 [Hd0 [Hs0 [Hpre [Hq [Hack [HL2 Hrun]]]]]]]]]]]]]]].
   destruct Hc0 as [A1 [A2 [A3 [A4 [A5 [A6 [A7 A8]]]]]]].
   assert (Hm : h_message (upd_de s0 de1) pk sclock =
                (upd_reqs (upd_de s0 de1) (insert (sv_next_req s0) (RPublish key (mode_of_type t) id) (sv_reqs s0)) (sv_next_req s0 + 1),
@@ -395,7 +398,7 @@ Proof.
   cbn [sv_reqs sv_next_req sv_streams sv_app sv_connected sv_de sv_ser upd_de upd_reqs]. rewrite A3.
   split; [rewrite events_pre by exact Hpre; reflexivity|].
   split; [apply ChunkSpecProofs.lookup_insert_same|]. split; [exact A5|]. split; [exact A1|]. split; [rewrite A4; exact Hconn|].
-  split; [exact HL2|]. split; [exact Hs0|].
+  split; [exact HL2|]. split; [exact Hs0|]. split; [exact Hack|].
   intros Hquiet. destruct (Hq Hquiet) as [-> Hser0]. split; [reflexivity|exact Hser0].
 Qed.
 
@@ -427,20 +430,20 @@ Theorem stream_begin_ignored ser ser' b c id clock cclock :
   send_message ser (MUserControl StreamBegin (Some id) None None) clock id false false = Ok (b, ser') ->
   exists c2 r, client_handle_input c b cclock = (c2, COk r) /\
   cevents r = [] /\ cl_state c2 = cl_state c /\ cl_stream c2 = cl_stream c /\ cl_trs c2 = cl_trs c /\ cl_app c2 = cl_app c /\
-  cl_cfg c2 = cl_cfg c /\ cl_next_tr c2 = cl_next_tr c /\ Link ser' (cl_de c2) /\ ser_ok (cl_ser c2) /\
+  cl_cfg c2 = cl_cfg c /\ cl_next_tr c2 = cl_next_tr c /\ Link ser' (cl_de c2) /\ ser_ok (cl_ser c2) /\ cl_ack c2 = fst (ack_step (cl_ack c) (lenN b)) /\
   (quiet (cl_ack c) b -> r = [] /\ cl_ser c2 = cl_ser c).
 Proof.
   intros HL Hcs Hid Hclk Hsend.
   assert (Hok : msg_ok (MUserControl StreamBegin (Some id) None None)).
   { cbn [msg_ok]. split; [exists id; split; [reflexivity|exact Hid]|split; reflexivity]. }
   destruct (client_receives c ser _ clock id false false b ser' cclock HL Hcs Hok I Hclk Hid Hsend)
-    as [pk [de1 [de3 [c0 [pre [Hof [Hsid [Hts [[E1 [E2 [E3 [E4 [E5 E6]]]]] [Hd0 [Hs0 [Hpre [Hq [HL2 Hrun]]]]]]]]]]]]]].
+    as [pk [de1 [de3 [c0 [pre [Hof [Hsid [Hts [[E1 [E2 [E3 [E4 [E5 E6]]]]] [Hd0 [Hs0 [Hpre [Hq [Hack [HL2 Hrun]]]]]]]]]]]]]]].
   assert (Hm : ch_message (cupd_de c0 de1) pk cclock = (cupd_de c0 de1, COk [])) by (unfold ch_message; rewrite Hof; reflexivity).
   rewrite Hm in Hrun. cbv iota beta in Hrun. rewrite app_nil_r in Hrun.
   eexists. eexists. split; [exact Hrun|].
   cbn [cl_state cl_stream cl_trs cl_app cl_cfg cl_next_tr cl_de cl_ser cupd_de].
   split; [exact Hpre|]. split; [exact E4|]. split; [exact E6|]. split; [exact E3|]. split; [exact E5|]. split; [exact E1|]. split; [exact E2|].
-  split; [exact HL2|]. split; [exact Hs0|]. exact Hq.
+  split; [exact HL2|]. split; [exact Hs0|]. split; [exact Hack|]. exact Hq.
 Qed.
 
 (* ================================================================ publish start status: server -> client *)
@@ -450,14 +453,14 @@ Theorem publish_start_delivered ser ser' b c key id clock cclock :
   cl_state c = PublishRequested ->
   exists c2 r, client_handle_input c b cclock = (c2, COk r) /\
   cevents r = [CPublishAccepted] /\ cl_state c2 = Publishing /\ cl_stream c2 = cl_stream c /\ cl_app c2 = cl_app c /\
-  cl_cfg c2 = cl_cfg c /\ Link ser' (cl_de c2) /\ ser_ok (cl_ser c2) /\
+  cl_cfg c2 = cl_cfg c /\ Link ser' (cl_de c2) /\ ser_ok (cl_ser c2) /\ cl_ack c2 = fst (ack_step (cl_ack c) (lenN b)) /\
   (quiet (cl_ack c) b -> r = [CEvent CPublishAccepted] /\ cl_ser c2 = cl_ser c).
 Proof.
   intros HL Hcs Hkey Hid Hclk Hsend Hst.
   assert (Hok : msg_ok (publish_start key)).
   { apply status_ok; [vm_compute; reflexivity|]. rewrite utf8_ascii_app by (vm_compute; reflexivity). exact Hkey. }
   destruct (client_receives c ser _ clock id false false b ser' cclock HL Hcs Hok I Hclk Hid Hsend)
-    as [pk [de1 [de3 [c0 [pre [Hof [Hsid [Hts [[E1 [E2 [E3 [E4 [E5 E6]]]]] [Hd0 [Hs0 [Hpre [Hq [HL2 Hrun]]]]]]]]]]]]]].
+    as [pk [de1 [de3 [c0 [pre [Hof [Hsid [Hts [[E1 [E2 [E3 [E4 [E5 E6]]]]] [Hd0 [Hs0 [Hpre [Hq [Hack [HL2 Hrun]]]]]]]]]]]]]]].
   assert (Hm : ch_message (cupd_de c0 de1) pk cclock = (cupd_state (cupd_de c0 de1) Publishing, COk [CEvent CPublishAccepted])).
   { unfold ch_message. rewrite Hof. unfold publish_start, onstatus. cbv iota.
     rewrite ch_command_status. unfold ch_status, status_object. cbn [prop_get].
@@ -469,7 +472,7 @@ Proof.
   eexists. eexists. split; [exact Hrun|].
   cbn [cl_state cl_stream cl_trs cl_app cl_cfg cl_next_tr cl_de cl_ser cupd_de cupd_state].
   split; [rewrite cevents_pre by exact Hpre; reflexivity|].
-  split; [reflexivity|]. split; [exact E6|]. split; [exact E5|]. split; [exact E1|]. split; [exact HL2|]. split; [exact Hs0|].
+  split; [reflexivity|]. split; [exact E6|]. split; [exact E5|]. split; [exact E1|]. split; [exact HL2|]. split; [exact Hs0|]. split; [exact Hack|].
   intros Hquiet. destruct (Hq Hquiet) as [-> Hser0]. split; [reflexivity|exact Hser0].
 Qed.
 
@@ -480,7 +483,7 @@ Theorem create_result_play ser ser' b2 c trn id key sclock cclock :
   lookup trn (cl_trs c) = Some (TCreateStream (PurposePlay key)) ->
   exists c2 r3, client_handle_input c b2 cclock = (c2, COk r3) /\
   cevents r3 = [] /\ cl_state c2 = PlayRequested /\ cl_stream c2 = Some id /\ lookup trn (cl_trs c2) = None /\
-  cl_app c2 = cl_app c /\ cl_cfg c2 = cl_cfg c /\ Link ser' (cl_de c2) /\ ser_ok (cl_ser c2) /\
+  cl_app c2 = cl_app c /\ cl_cfg c2 = cl_cfg c /\ Link ser' (cl_de c2) /\ ser_ok (cl_ser c2) /\ cl_ack c2 = fst (ack_step (cl_ack c) (lenN b2)) /\
   (quiet (cl_ack c) b2 -> exists b3 b4 serm, r3 = [CPacket b3 false; CPacket b4 false] /\
      send_message (cl_ser c) (buffer_msg id (cc_buffer (cl_cfg c))) cclock 0 false false = Ok (b3, serm) /\
      send_message serm (play_cmd key) cclock id false false = Ok (b4, cl_ser c2)).
@@ -489,7 +492,7 @@ Proof.
   assert (Hok : msg_ok (create_reply (u32_to_f64 trn) id)).
   { cbn [msg_ok create_reply wf_values wf_value]. repeat split; try reflexivity; apply u32_to_f64_bound; assumption. }
   destruct (client_receives c ser _ sclock 0 false false b2 ser' cclock HL Hcs Hok I Hsclk ltac:(lia) Hsend)
-    as [pk [de1 [de3 [c0 [pre [Hof [Hsid [Hts [[E1 [E2 [E3 [E4 [E5 E6]]]]] [Hd0 [Hs0 [Hpre [Hq [HL2 Hrun]]]]]]]]]]]]]].
+    as [pk [de1 [de3 [c0 [pre [Hof [Hsid [Hts [[E1 [E2 [E3 [E4 [E5 E6]]]]] [Hd0 [Hs0 [Hpre [Hq [Hack [HL2 Hrun]]]]]]]]]]]]]]].
   destruct (send_fits_uc (cl_ser c0) SetBufferLength (Some id) (Some (cc_buffer (cl_cfg c0))) None cclock 0 false false Hs0) as [b3 [serm [Es3 Hserm]]].
   destruct (send_fits serm (play_cmd key) cclock id false false Hserm (play_cmd_payload key Hkl)) as [b4 [ser4 [Es4 Hser4]]].
   assert (Hm : ch_message (cupd_de c0 de1) pk cclock =
@@ -505,7 +508,7 @@ Proof.
   split; [rewrite cevents_pre by exact Hpre; reflexivity|].
   cbn [cl_state cl_stream cl_trs cl_app cl_cfg cl_de cl_ser cupd_de cupd_ser cupd_state cupd_stream cupd_trs].
   split; [reflexivity|]. split; [reflexivity|]. split; [apply ChunkSpecProofs.lookup_remove_same|].
-  split; [exact E5|]. split; [exact E1|]. split; [exact HL2|]. split; [exact Hser4|].
+  split; [exact E5|]. split; [exact E1|]. split; [exact HL2|]. split; [exact Hser4|]. split; [exact Hack|].
   intros Hquiet. destruct (Hq Hquiet) as [-> Hser0]. exists b3, b4, serm. split; [reflexivity|]. rewrite <- Hser0, <- E1. split; [exact Es3|exact Es4].
 Qed.
 
@@ -514,18 +517,18 @@ Theorem buffer_length_ignored ser ser' b s id bl clock sclock :
   Link ser (sv_de s) -> ser_ok (sv_ser s) -> id < 4294967296 -> bl < 4294967296 -> clock < 4294967296 ->
   send_message ser (buffer_msg id bl) clock 0 false false = Ok (b, ser') ->
   exists s2 r, server_handle_input s b sclock = (s2, ROk r) /\
-  events r = [] /\ same_core s s2 /\ Link ser' (sv_de s2) /\ ser_ok (sv_ser s2) /\
+  events r = [] /\ same_core s s2 /\ Link ser' (sv_de s2) /\ ser_ok (sv_ser s2) /\ sv_ack s2 = fst (ack_step (sv_ack s) (lenN b)) /\
   (quiet (sv_ack s) b -> r = [] /\ sv_ser s2 = sv_ser s).
 Proof.
   intros HL Hss Hid Hbl Hclk Hsend.
   assert (Hok : msg_ok (buffer_msg id bl)).
   { cbn [msg_ok buffer_msg]. split; [exists id, bl; repeat split; assumption|reflexivity]. }
   destruct (server_receives s ser _ clock 0 false false b ser' sclock HL Hss Hok I Hclk ltac:(lia) Hsend)
-    as [pk [de1 [de3 [s0 [pre [Hof [Hsid [Hts [Hc0 [Hd0 [Hs0 [Hpre [Hq [HL2 Hrun]]]]]]]]]]]]]].
+    as [pk [de1 [de3 [s0 [pre [Hof [Hsid [Hts [Hc0 [Hd0 [Hs0 [Hpre [Hq [Hack [HL2 Hrun]]]]]]]]]]]]]]].
   assert (Hm : h_message (upd_de s0 de1) pk sclock = (upd_de s0 de1, ROk [])) by (unfold h_message; rewrite Hof; reflexivity).
   rewrite Hm in Hrun. cbv iota beta in Hrun. rewrite app_nil_r in Hrun.
   eexists. eexists. split; [exact Hrun|].
-  split; [exact Hpre|]. split; [exact Hc0|]. split; [exact HL2|]. split; [exact Hs0|]. exact Hq.
+  split; [exact Hpre|]. split; [exact Hc0|]. split; [exact HL2|]. split; [exact Hs0|]. split; [exact Hack|]. exact Hq.
 Qed.
 
 Theorem play_request_delivered ser ser' b s key id app cclock sclock :
@@ -536,14 +539,14 @@ Theorem play_request_delivered ser ser' b s key id app cclock sclock :
   events r = [EvPlayRequested (sv_next_req s) app key LiveOrRecorded None false id] /\
   lookup (sv_next_req s) (sv_reqs s2) = Some (RPlay key id) /\
   sv_streams s2 = sv_streams s /\ sv_app s2 = sv_app s /\ sv_connected s2 = true /\
-  Link ser' (sv_de s2) /\ ser_ok (sv_ser s2) /\
+  Link ser' (sv_de s2) /\ ser_ok (sv_ser s2) /\ sv_ack s2 = fst (ack_step (sv_ack s) (lenN b)) /\
   (quiet (sv_ack s) b -> r = [SEvent (EvPlayRequested (sv_next_req s) app key LiveOrRecorded None false id)] /\ sv_ser s2 = sv_ser s).
 Proof.
   intros HL Hss Hkey Hid Hclk Hsend Hconn Happ.
   assert (Hok : msg_ok (play_cmd key)).
   { cbn [msg_ok play_cmd wf_values wf_value]. repeat split; try reflexivity; assumption. }
   destruct (server_receives s ser _ cclock id false false b ser' sclock HL Hss Hok I Hclk Hid Hsend)
-    as [pk [de1 [de3 [s0 [pre [Hof [Hsid [Hts [Hc0 [Hd0 [Hs0 [Hpre [Hq [HL2 Hrun]]]]]]]]]]]]]].
+    as [pk [de1 [de3 [s0 [pre [Hof [Hsid [Hts [Hc0 [Hd0 [Hs0 [Hpre [Hq [Hack [HL2 Hrun]]]]]]]]]]]]]]].
   destruct Hc0 as [A1 [A2 [A3 [A4 [A5 [A6 [A7 A8]]]]]]].
   assert (Hm : h_message (upd_de s0 de1) pk sclock =
                (upd_reqs (upd_de s0 de1) (insert (sv_next_req s0) (RPlay key id) (sv_reqs s0)) (sv_next_req s0 + 1),
@@ -557,7 +560,7 @@ Proof.
   cbn [sv_reqs sv_next_req sv_streams sv_app sv_connected sv_de sv_ser upd_de upd_reqs]. rewrite A3.
   split; [rewrite events_pre by exact Hpre; reflexivity|].
   split; [apply ChunkSpecProofs.lookup_insert_same|]. split; [exact A5|]. split; [exact A1|]. split; [rewrite A4; exact Hconn|].
-  split; [exact HL2|]. split; [exact Hs0|].
+  split; [exact HL2|]. split; [exact Hs0|]. split; [exact Hack|].
   intros Hquiet. destruct (Hq Hquiet) as [-> Hser0]. split; [reflexivity|exact Hser0].
 Qed.
 
@@ -595,13 +598,13 @@ Theorem play_reset_delivered ser ser' b c id clock cclock :
   send_message ser play_reset clock id false false = Ok (b, ser') ->
   exists c2 r, client_handle_input c b cclock = (c2, COk r) /\
   cevents r = [CUnhandleableStatus (str "NetStream.Play.Reset")] /\ cl_state c2 = cl_state c /\ cl_stream c2 = cl_stream c /\ cl_app c2 = cl_app c /\
-  cl_cfg c2 = cl_cfg c /\ Link ser' (cl_de c2) /\ ser_ok (cl_ser c2) /\
+  cl_cfg c2 = cl_cfg c /\ Link ser' (cl_de c2) /\ ser_ok (cl_ser c2) /\ cl_ack c2 = fst (ack_step (cl_ack c) (lenN b)) /\
   (quiet (cl_ack c) b -> r = [CEvent (CUnhandleableStatus (str "NetStream.Play.Reset"))] /\ cl_ser c2 = cl_ser c).
 Proof.
   intros HL Hcs Hid Hclk Hsend.
   assert (Hok : msg_ok play_reset) by (apply status_ok; vm_compute; reflexivity).
   destruct (client_receives c ser _ clock id false false b ser' cclock HL Hcs Hok I Hclk Hid Hsend)
-    as [pk [de1 [de3 [c0 [pre [Hof [Hsid [Hts [[E1 [E2 [E3 [E4 [E5 E6]]]]] [Hd0 [Hs0 [Hpre [Hq [HL2 Hrun]]]]]]]]]]]]]].
+    as [pk [de1 [de3 [c0 [pre [Hof [Hsid [Hts [[E1 [E2 [E3 [E4 [E5 E6]]]]] [Hd0 [Hs0 [Hpre [Hq [Hack [HL2 Hrun]]]]]]]]]]]]]]].
   assert (Hm : ch_message (cupd_de c0 de1) pk cclock = (cupd_de c0 de1, COk [CEvent (CUnhandleableStatus (str "NetStream.Play.Reset"))])).
   { unfold ch_message. rewrite Hof. unfold play_reset, onstatus. cbv iota.
     rewrite ch_command_status. unfold ch_status, status_object. cbn [prop_get].
@@ -612,7 +615,7 @@ Proof.
   eexists. eexists. split; [exact Hrun|].
   cbn [cl_state cl_stream cl_trs cl_app cl_cfg cl_next_tr cl_de cl_ser cupd_de].
   split; [rewrite cevents_pre by exact Hpre; reflexivity|].
-  split; [exact E4|]. split; [exact E6|]. split; [exact E5|]. split; [exact E1|]. split; [exact HL2|]. split; [exact Hs0|].
+  split; [exact E4|]. split; [exact E6|]. split; [exact E5|]. split; [exact E1|]. split; [exact HL2|]. split; [exact Hs0|]. split; [exact Hack|].
   intros Hquiet. destruct (Hq Hquiet) as [-> Hser0]. split; [reflexivity|exact Hser0].
 Qed.
 
@@ -622,14 +625,14 @@ Theorem play_start_delivered ser ser' b c key id clock cclock :
   cl_state c = PlayRequested ->
   exists c2 r, client_handle_input c b cclock = (c2, COk r) /\
   cevents r = [CPlaybackAccepted] /\ cl_state c2 = Playing /\ cl_stream c2 = cl_stream c /\ cl_app c2 = cl_app c /\
-  cl_cfg c2 = cl_cfg c /\ Link ser' (cl_de c2) /\ ser_ok (cl_ser c2) /\
+  cl_cfg c2 = cl_cfg c /\ Link ser' (cl_de c2) /\ ser_ok (cl_ser c2) /\ cl_ack c2 = fst (ack_step (cl_ack c) (lenN b)) /\
   (quiet (cl_ack c) b -> r = [CEvent CPlaybackAccepted] /\ cl_ser c2 = cl_ser c).
 Proof.
   intros HL Hcs Hkey Hid Hclk Hsend Hst.
   assert (Hok : msg_ok (play_start key)).
   { apply status_ok; [vm_compute; reflexivity|]. rewrite utf8_ascii_app by (vm_compute; reflexivity). exact Hkey. }
   destruct (client_receives c ser _ clock id false false b ser' cclock HL Hcs Hok I Hclk Hid Hsend)
-    as [pk [de1 [de3 [c0 [pre [Hof [Hsid [Hts [[E1 [E2 [E3 [E4 [E5 E6]]]]] [Hd0 [Hs0 [Hpre [Hq [HL2 Hrun]]]]]]]]]]]]]].
+    as [pk [de1 [de3 [c0 [pre [Hof [Hsid [Hts [[E1 [E2 [E3 [E4 [E5 E6]]]]] [Hd0 [Hs0 [Hpre [Hq [Hack [HL2 Hrun]]]]]]]]]]]]]]].
   assert (Hm : ch_message (cupd_de c0 de1) pk cclock = (cupd_state (cupd_de c0 de1) Playing, COk [CEvent CPlaybackAccepted])).
   { unfold ch_message. rewrite Hof. unfold play_start, onstatus. cbv iota.
     rewrite ch_command_status. unfold ch_status, status_object. cbn [prop_get].
@@ -640,7 +643,7 @@ Proof.
   eexists. eexists. split; [exact Hrun|].
   cbn [cl_state cl_stream cl_trs cl_app cl_cfg cl_next_tr cl_de cl_ser cupd_de cupd_state].
   split; [rewrite cevents_pre by exact Hpre; reflexivity|].
-  split; [reflexivity|]. split; [exact E6|]. split; [exact E5|]. split; [exact E1|]. split; [exact HL2|]. split; [exact Hs0|].
+  split; [reflexivity|]. split; [exact E6|]. split; [exact E5|]. split; [exact E1|]. split; [exact HL2|]. split; [exact Hs0|]. split; [exact Hack|].
   intros Hquiet. destruct (Hq Hquiet) as [-> Hser0]. split; [reflexivity|exact Hser0].
 Qed.
 
@@ -651,7 +654,7 @@ Theorem data_ignored ser ser' b c m id clock cclock :
   send_message ser m clock id false false = Ok (b, ser') ->
   exists c2 r, client_handle_input c b cclock = (c2, COk r) /\
   cevents r = [] /\ cl_state c2 = cl_state c /\ cl_stream c2 = cl_stream c /\ cl_app c2 = cl_app c /\
-  cl_cfg c2 = cl_cfg c /\ Link ser' (cl_de c2) /\ ser_ok (cl_ser c2) /\
+  cl_cfg c2 = cl_cfg c /\ Link ser' (cl_de c2) /\ ser_ok (cl_ser c2) /\ cl_ack c2 = fst (ack_step (cl_ack c) (lenN b)) /\
   (quiet (cl_ack c) b -> r = [] /\ cl_ser c2 = cl_ser c).
 Proof.
   intros Hm HL Hcs Hid Hclk Hsend.
@@ -660,7 +663,7 @@ Proof.
     repeat (constructor; [cbn [In]; intros Hx; repeat (destruct Hx as [Hx|Hx]; [vm_compute in Hx; discriminate Hx|]); exact Hx|]). constructor. }
   assert (Hpl : plain m) by (destruct Hm as [-> | ->]; exact I).
   destruct (client_receives c ser _ clock id false false b ser' cclock HL Hcs Hok Hpl Hclk Hid Hsend)
-    as [pk [de1 [de3 [c0 [pre [Hof [Hsid [Hts [[E1 [E2 [E3 [E4 [E5 E6]]]]] [Hd0 [Hs0 [Hpre [Hq [HL2 Hrun]]]]]]]]]]]]]].
+    as [pk [de1 [de3 [c0 [pre [Hof [Hsid [Hts [[E1 [E2 [E3 [E4 [E5 E6]]]]] [Hd0 [Hs0 [Hpre [Hq [Hack [HL2 Hrun]]]]]]]]]]]]]]].
   assert (Hmm : ch_message (cupd_de c0 de1) pk cclock = (cupd_de c0 de1, COk [])).
   { unfold ch_message. rewrite Hof.
     destruct Hm as [-> | ->]; unfold ch_data, sample_access, data_start; cbv iota; destruct (cl_stream (cupd_de c0 de1)) as [a|]; try reflexivity;
@@ -668,7 +671,7 @@ Proof.
   rewrite Hmm in Hrun. cbv iota beta in Hrun. rewrite app_nil_r in Hrun.
   eexists. eexists. split; [exact Hrun|].
   cbn [cl_state cl_stream cl_trs cl_app cl_cfg cl_next_tr cl_de cl_ser cupd_de].
-  split; [exact Hpre|]. split; [exact E4|]. split; [exact E6|]. split; [exact E5|]. split; [exact E1|]. split; [exact HL2|]. split; [exact Hs0|]. exact Hq.
+  split; [exact Hpre|]. split; [exact E4|]. split; [exact E6|]. split; [exact E5|]. split; [exact E1|]. split; [exact HL2|]. split; [exact Hs0|]. split; [exact Hack|]. exact Hq.
 Qed.
 
 (* ================================================================ the publish workflow, composed *)
@@ -703,15 +706,15 @@ Theorem publish_completes c s app key t k1 k2 k3 k4 k5 k6 k7 :
 Proof.
   intros HL1 HL2 Hcs Hss Hst Htr Hid Hconn Happ Hkey Hkl K1 K2 K3 K5.
   destruct (create_stream_delivered c s (PurposePublish key t) k1 k2 HL1 Hcs Hss Hst Htr K1)
-    as [c1 [b1 [s1 [r2 [Hreq [C1 [C2 [C3 [C4 [C5 [C6 [C7 [C8 [Hin1 [Ev1 [S1 [S2 [S3 [S4 [S5 [S6 [S7 [S8 Hq]]]]]]]]]]]]]]]]]]]]]]].
+    as [c1 [b1 [s1 [r2 [Hreq [C1 [C2 [C3 [C4 [C5 [C6 [C7 [C8 [Csend [Hin1 [Ev1 [S1 [S2 [S3 [S4 [S5 [S6 [S7 [S8 [Sack Hq]]]]]]]]]]]]]]]]]]]]]]]]].
   exists c1, b1, s1, r2. split; [exact Hreq|]. split; [exact Hin1|]. split; [exact Ev1|]. intros Hq1.
   destruct (Hq Hq1) as [b2 [-> Hsend2]].
   destruct (create_result_publish (sv_ser s) (sv_ser s1) b2 c1 (cl_next_tr c) (sv_next_stream s) key t k2 k3
-              ltac:(rewrite C3; exact HL2) C8 Htr Hid K2 ltac:(lia) Hsend2 C2) as [c2 [r3 [Hin2 [Ev2 [D1 [D2 [D3 [D4 [D5 [D6 [D7 Hq']]]]]]]]]]].
+              ltac:(rewrite C3; exact HL2) C8 Htr Hid K2 ltac:(lia) Hsend2 C2) as [c2 [r3 [Hin2 [Ev2 [D1 [D2 [D3 [D4 [D5 [D6 [D7 [Dack Hq']]]]]]]]]]]].
   exists b2, c2, r3. split; [reflexivity|]. split; [exact Hin2|]. split; [exact Ev2|]. intros Hq2.
   destruct (Hq' Hq2) as [b3 [-> Hsend3]].
   destruct (publish_request_delivered (cl_ser c1) (cl_ser c2) b3 s1 key t (sv_next_stream s) app k3 k4 S7 S8 Hkey Hid K3 Hsend3
-              ltac:(rewrite S4; exact Hconn) ltac:(rewrite S1; exact Happ)) as [s2 [r4 [Hin3 [Ev3 [F1 [F2 [F3 [F4 [F5 [F6 Hq'']]]]]]]]]].
+              ltac:(rewrite S4; exact Hconn) ltac:(rewrite S1; exact Happ)) as [s2 [r4 [Hin3 [Ev3 [F1 [F2 [F3 [F4 [F5 [F6 [Fack Hq'']]]]]]]]]]].
   rewrite S3 in Ev3, F1.
   exists b3, s2, r4. split; [reflexivity|]. split; [exact Hin3|]. split; [exact Ev3|]. intros Hq3.
   destruct (Hq'' Hq3) as [-> Hser2]. rewrite S3. split; [reflexivity|].
@@ -721,11 +724,11 @@ Proof.
   exists s3, b4, b5. split; [exact Hacc|].
   rewrite Hser2 in Hsend4.
   destruct (stream_begin_ignored (sv_ser s1) serm b4 c2 (sv_next_stream s) k5 k6 D6 D7 Hid K5 Hsend4)
-    as [c3 [r6 [Hin4 [Ev4 [H1 [H2 [H3 [H4 [H5 [H6 [H7 [H8 Hq5]]]]]]]]]]]].
+    as [c3 [r6 [Hin4 [Ev4 [H1 [H2 [H3 [H4 [H5 [H6 [H7 [H8 [Hack5 Hq5]]]]]]]]]]]]].
   exists c3, r6. split; [exact Hin4|]. split; [exact Ev4|]. intros Hq4.
   destruct (Hq5 Hq4) as [-> Hser3]. split; [reflexivity|].
   destruct (publish_start_delivered serm (sv_ser s3) b5 c3 key (sv_next_stream s) k5 k7 H7 H8 Hkey Hid K5 Hsend5 ltac:(rewrite H1; exact D1))
-    as [c4 [r7 [Hin5 [Ev5 [I1 [I2 [I3 [I4 [I5 [I6 Hq7]]]]]]]]]].
+    as [c4 [r7 [Hin5 [Ev5 [I1 [I2 [I3 [I4 [I5 [I6 [Iack Hq7]]]]]]]]]]].
   exists c4, r7. split; [exact Hin5|]. split; [exact Ev5|]. intros Hq6.
   destruct (Hq7 Hq6) as [-> Hser4]. split; [reflexivity|].
   split; [unfold publishing_stream; rewrite I1, I2, H2, D2; reflexivity|].
@@ -772,19 +775,19 @@ Proof.
   intros HL1 HL2 Hcs Hss Hst Htr Hid Hbuf Hconn Happ Hkey Hkl K1 K2 K3 K6.
   unfold client_request_playback.
   destruct (create_stream_delivered c s (PurposePlay key) k1 k2 HL1 Hcs Hss Hst Htr K1)
-    as [c1 [b1 [s1 [r2 [Hreq [C1 [C2 [C3 [C4 [C5 [C6 [C7 [C8 [Hin1 [Ev1 [S1 [S2 [S3 [S4 [S5 [S6 [S7 [S8 Hq]]]]]]]]]]]]]]]]]]]]]]].
+    as [c1 [b1 [s1 [r2 [Hreq [C1 [C2 [C3 [C4 [C5 [C6 [C7 [C8 [Csend [Hin1 [Ev1 [S1 [S2 [S3 [S4 [S5 [S6 [S7 [S8 [Sack Hq]]]]]]]]]]]]]]]]]]]]]]]]].
   exists c1, b1, s1, r2. split; [exact Hreq|]. split; [exact Hin1|]. split; [exact Ev1|]. intros Hq1.
   destruct (Hq Hq1) as [b2 [-> Hsend2]].
   destruct (create_result_play (sv_ser s) (sv_ser s1) b2 c1 (cl_next_tr c) (sv_next_stream s) key k2 k3
-              ltac:(rewrite C3; exact HL2) C8 Htr Hid K2 ltac:(lia) Hsend2 C2) as [c2 [r3 [Hin2 [Ev2 [D1 [D2 [D3 [D4 [D5 [D6 [D7 Hq']]]]]]]]]]].
+              ltac:(rewrite C3; exact HL2) C8 Htr Hid K2 ltac:(lia) Hsend2 C2) as [c2 [r3 [Hin2 [Ev2 [D1 [D2 [D3 [D4 [D5 [D6 [D7 [Dack Hq']]]]]]]]]]]].
   exists b2, c2, r3. split; [reflexivity|]. split; [exact Hin2|]. split; [exact Ev2|]. intros Hq2.
   destruct (Hq' Hq2) as [b3 [b4 [serm [-> [Hsend3 Hsend4]]]]].
   destruct (buffer_length_ignored (cl_ser c1) serm b3 s1 (sv_next_stream s) (cc_buffer (cl_cfg c1)) k3 k4 S7 S8 Hid
-              ltac:(rewrite C4; exact Hbuf) K3 Hsend3) as [s2 [r4 [Hin3 [Ev3 [[B1 [B2 [B3 [B4 [B5 [B6 [B7 B8]]]]]]] [B9 [B10 Hqb]]]]]]].
+              ltac:(rewrite C4; exact Hbuf) K3 Hsend3) as [s2 [r4 [Hin3 [Ev3 [[B1 [B2 [B3 [B4 [B5 [B6 [B7 B8]]]]]]] [B9 [B10 [Back Hqb]]]]]]]].
   exists b3, b4, s2, r4. split; [reflexivity|]. split; [exact Hin3|]. split; [exact Ev3|]. intros Hq3.
   destruct (Hqb Hq3) as [-> Hser2]. split; [reflexivity|].
   destruct (play_request_delivered serm (cl_ser c2) b4 s2 key (sv_next_stream s) app k3 k5 B9 B10 Hkey Hid K3 Hsend4
-              ltac:(rewrite B4, S4; exact Hconn) ltac:(rewrite B1, S1; exact Happ)) as [s3 [r5 [Hin4 [Ev4 [F1 [F2 [F3 [F4 [F5 [F6 Hq'']]]]]]]]]].
+              ltac:(rewrite B4, S4; exact Hconn) ltac:(rewrite B1, S1; exact Happ)) as [s3 [r5 [Hin4 [Ev4 [F1 [F2 [F3 [F4 [F5 [F6 [Fack Hq'']]]]]]]]]]].
   rewrite B3, S3 in Ev4, F1.
   exists s3, r5. split; [exact Hin4|]. split; [exact Ev4|]. intros Hq4.
   destruct (Hq'' Hq4) as [-> Hser3]. rewrite B3, S3. split; [reflexivity|].
@@ -793,16 +796,16 @@ Proof.
     as [s4 [p1 [p2 [p3 [p4 [p5 [e1 [e2 [e3 [e4 [Hacc [G1 [G2 [G3 [G4 [G5 [G6 [G7 [N1 [N2 [N3 [N4 N5]]]]]]]]]]]]]]]]]]]]]].
   exists s4, p1, p2, p3, p4, p5. split; [exact Hacc|].
   rewrite Hser3, Hser2 in N1.
-  destruct (play_reset_delivered (sv_ser s1) e1 p1 c2 (sv_next_stream s) k6 t1 D6 D7 Hid K6 N1) as [c3 [q1 [X1 [V1 [H1 [H2 [H3 [H4 [H5 [H6 Hq5]]]]]]]]]].
+  destruct (play_reset_delivered (sv_ser s1) e1 p1 c2 (sv_next_stream s) k6 t1 D6 D7 Hid K6 N1) as [c3 [q1 [X1 [V1 [H1 [H2 [H3 [H4 [H5 [H6 [Hack5 Hq5]]]]]]]]]]].
   exists c3, q1. split; [exact X1|]. split; [exact V1|]. intros Q1. destruct (Hq5 Q1) as [-> Hc3]. split; [reflexivity|].
-  destruct (stream_begin_ignored e1 e2 p2 c3 (sv_next_stream s) k6 t2 H5 H6 Hid K6 N2) as [c4 [q2 [X2 [V2 [I1 [I2 [I3 [I4 [I5 [I6 [I7 [I8 Hq6]]]]]]]]]]]].
+  destruct (stream_begin_ignored e1 e2 p2 c3 (sv_next_stream s) k6 t2 H5 H6 Hid K6 N2) as [c4 [q2 [X2 [V2 [I1 [I2 [I3 [I4 [I5 [I6 [I7 [I8 [Iack Hq6]]]]]]]]]]]]].
   exists c4, q2. split; [exact X2|]. split; [exact V2|]. intros Q2. destruct (Hq6 Q2) as [-> Hc4]. split; [reflexivity|].
   destruct (play_start_delivered e2 e3 p3 c4 key (sv_next_stream s) k6 t3 I7 I8 Hkey Hid K6 N3 ltac:(rewrite I1, H1; exact D1))
-    as [c5 [q3 [X3 [V3 [J1 [J2 [J3 [J4 [J5 [J6 Hq7]]]]]]]]]].
+    as [c5 [q3 [X3 [V3 [J1 [J2 [J3 [J4 [J5 [J6 [Jack Hq7]]]]]]]]]]].
   exists c5, q3. split; [exact X3|]. split; [exact V3|]. intros Q3. destruct (Hq7 Q3) as [-> Hc5]. split; [reflexivity|].
-  destruct (data_ignored e3 e4 p4 c5 sample_access (sv_next_stream s) k6 t4 (or_introl eq_refl) J5 J6 Hid K6 N4) as [c6 [q4 [X4 [V4 [L1 [L2 [L3 [L4 [L5 [L6 Hq8]]]]]]]]]].
+  destruct (data_ignored e3 e4 p4 c5 sample_access (sv_next_stream s) k6 t4 (or_introl eq_refl) J5 J6 Hid K6 N4) as [c6 [q4 [X4 [V4 [L1 [L2 [L3 [L4 [L5 [L6 [Lack Hq8]]]]]]]]]]].
   exists c6, q4. split; [exact X4|]. split; [exact V4|]. intros Q4. destruct (Hq8 Q4) as [-> Hc6]. split; [reflexivity|].
-  destruct (data_ignored e4 (sv_ser s4) p5 c6 data_start (sv_next_stream s) k6 t5 (or_intror eq_refl) L5 L6 Hid K6 N5) as [c7 [q5 [X5 [V5 [M1 [M2 [M3 [M4 [M5 [M6 Hq9]]]]]]]]]].
+  destruct (data_ignored e4 (sv_ser s4) p5 c6 data_start (sv_next_stream s) k6 t5 (or_intror eq_refl) L5 L6 Hid K6 N5) as [c7 [q5 [X5 [V5 [M1 [M2 [M3 [M4 [M5 [M6 [Mack Hq9]]]]]]]]]]].
   exists c7, q5. split; [exact X5|]. split; [exact V5|]. intros Q5. destruct (Hq9 Q5) as [-> Hc7]. split; [reflexivity|].
   assert (Est : cl_state c7 = Playing) by (rewrite M1, L1; exact J1).
   assert (Estr : cl_stream c7 = Some (sv_next_stream s)) by (rewrite M2, L2, J2, I2, H2; exact D2).
@@ -828,7 +831,7 @@ Proof.
   assert (Hok : msg_ok (delete_cmd sid)).
   { cbn [msg_ok delete_cmd wf_values wf_value]. repeat split; try reflexivity. apply u32_to_f64_bound; exact Hsid. }
   destruct (server_receives s (cl_ser c) _ clock sid false false b ser' sclock HL Hss Hok I Hclk Hsid Esend)
-    as [pk [de1 [de3 [s0 [pre [Hof [Hpsid [Hts [Hc0 [Hd0 [Hs0 [Hpre [Hq [HL2 Hrun]]]]]]]]]]]]]].
+    as [pk [de1 [de3 [s0 [pre [Hof [Hpsid [Hts [Hc0 [Hd0 [Hs0 [Hpre [Hq [Hack [HL2 Hrun]]]]]]]]]]]]]]].
   destruct Hc0 as [A1 [A2 [A3 [A4 [A5 [A6 [A7 A8]]]]]]].
   assert (Hm : h_message (upd_de s0 de1) pk sclock =
                (upd_streams (upd_de s0 de1) (remove sid (sv_streams s0)) (sv_next_stream s0), ROk (finished_event app st))).
